@@ -59,7 +59,7 @@ def gen_case(run_seed: int, index: int, tier: str) -> dict:
     if index % 5000 == 11:
         # one very long sequence per 5000 runs: positions beyond 2**24 are where float32 index arithmetic breaks
         return {"mode": "huge", "fading": rng.choice(["rayleigh", "rician", "lognormal"]), "k": 2.0, "sigma_db": 4.0, "T": rng.choice([1, 7]),
-                "how": "generic", "complex": False, "dtype": "float32", "shape": [(1 << 24) + rng.choice([2, 3, 9])],
+                "how": "generic", "complex": False, "dtype": "float32", "shape": [(1 << 24) + rng.choice([257, 1001])],
                 "noise_param": "power", "power": 0.1, "snr_db": 10.0, "sig_power": 1.0,
                 "torch_seed": rng.randrange(1 << 31), "data_seed": rng.randrange(1 << 31)}
     ft = rng.choice(["rayleigh", "rician", "rician", "lognormal"])
@@ -199,7 +199,7 @@ def execute(case: dict) -> RunResult:
                 # neighbouring blocks must not share a coefficient systematically
                 starts = yf[::T]
                 eq = int((starts[1:] == starts[:-1]).sum())
-                if eq > 8:
+                if eq > 0:  # continuous gains: an exact coincidence of neighbours has probability ~2^-46 per pair
                     violate("blocks_share_gain", f"{eq} pairs of neighbouring coherence blocks carry exactly the same coefficient in a {L}-sample sequence")
         res.digest, res.n_events = log.digest(), len(log)
         return res
